@@ -51,7 +51,7 @@ type FuncTable struct {
 	// how a missing check is reported.
 }
 
-func (s GateSpec) key() string { return s.Func + "|" + s.Sink }
+func (s GateSpec) key() string { return s.Func + "|" + s.Sink + "|" + s.Cfg }
 
 func tablePath(prop string) string {
 	return filepath.Join(core.VerifDir(), "tables", "gates", prop+".json")
@@ -214,7 +214,7 @@ func CheckGates(c *Ctx, prop string, specs []GateSpec) {
 	}
 	byKey := map[string]FuncTable{}
 	for _, t := range tables {
-		byKey[t.Func+"|"+t.Sink] = t
+		byKey[t.Func+"|"+t.Sink+"|"+t.Cfg] = t
 	}
 	for _, s := range specs {
 		ft, ok := byKey[s.key()]
